@@ -187,6 +187,7 @@ def run(ctx):
         impl.update(h.run(cases[label]))
     model = coqbuild.run_model(mlines)
     ctx.log(f"implementation answered {len(impl)}, model answered {len(model)}")
+    ctx.vm_crosscheck(mlines, model)
 
     spec_fail, disagreements = [], []
     distinct = set()
